@@ -36,7 +36,7 @@ SPECS['C01'] = dict(
 SPECS['C02'] = dict(
     jobs=decode_jobs('asan'), level='exploration', technique='differential testing against an independent reference decoder over exhaustive/enumerated/mutated inputs',
     rule='Same input campaigns as C01. Oracle: cbor_load returns an item iff refcbor.classify accepts; on accept the tree observed through public getters equals the reference AST node by node (type, width, value, float bits with NaN==NaN, tag, flavour, chunk boundaries, order, fill), every refcount is 1, read == encoded length, no node or buffer lies in the input block, and the tree is unchanged after the input block is overwritten and freed. Non-trivial = >=2 complete heads, or a single-edit neighbour of an accepted item.',
-    assumptions=COMMON_ASSUME + ['the harness allocator refuses single requests above its cap; the reference predicts refusal from the declared count and the public slot sizes sizeof(cbor_item_t*) / sizeof(struct cbor_pair); cases hitting the total cap are skipped and counted'],
+    assumptions=COMMON_ASSUME + ['the harness allocator refuses single requests above its cap; which head a refusal belongs to is observed by decoding growing prefixes and handed to the reference (never predicted from declared counts or slot sizes); counts >= 2^56 admit MEMERROR on the spot as well as carrying on; cases hitting the total cap are skipped and counted'],
     level_text='Exploration by differential testing: complete for every byte string up to 3 (4) bytes and every enumerated item / single-edit neighbour; elsewhere a sample. The reference decoder is independent of libcbor.',
     level_note='The reference model is trusted (validated by 0 disagreements on the exhaustive campaigns after the D1..D5 fixes); observation is through public getters only.')
 
